@@ -180,12 +180,14 @@ class Ctx:
         print(f"[{self.prop} {self.tier} seed={self.seed}] evaluations={evid['coverage']['evaluations']} "
               f"nontrivial={evid['coverage']['distinct_nontrivial']} violations={len(viol_lines)} "
               f"known={sum(tot.known_hits.values())} wall={evid['wall_s']}s")
+        if viol_lines:
+            for n in harness_errors[:3]:
+                print(n, file=sys.stderr)
+            return 1
         if harness_errors:
             for n in harness_errors[:10]:
                 print(n, file=sys.stderr)
             return 2
-        if viol_lines:
-            return 1
         if missing:
             print(f"HARNESS-ERROR: generator classes never produced: {missing}", file=sys.stderr)
             return 2
